@@ -2,7 +2,9 @@
    runFunc and run, vm.go stop/SetContext): the check of env.done at the head
    of the instruction loop, the watcher goroutine that sets env.done when the
    context is done, the blocking channel instructions, which include the done
-   case in their select when a context was set, and runFunc's final test.
+   case in their select when a context was set, and runFunc's final statements (what it returns when a panic is pending, i.e.
+   while the deferred calls started by an unrecovered panic run: generated
+   table Facts_vm_sites.runfunc_tail).
    The program, the readiness of channels, the scheduler's choice among ready
    select cases and the moment the watcher runs are oracles.  Which code site a
    blocking instruction executes, and whether that site is guarded by the done
@@ -56,10 +58,17 @@ Definition op_guarded (b : bop) : bool :=
 Inductive ikind :=
 | KCompute                 (* any instruction that does not block *)
 | KBlock (b : bop)
-| KFinish (o : N)          (* the code ends with its own outcome o (nil or a PanicError): runFunc tests env.done before returning it *)
+| KPanic (frames : bool)   (* the instruction panics (OpPanic, a run-time fault, a panicking native function):
+                              runRecoverable converts the panic, runFunc links the PanicError into vm.panic;
+                              with frames left (len(vm.calls) > 0) it pushes a panicked frame and calls
+                              runRecoverable again: nextCall runs the deferred calls, whose instructions are
+                              the ones that follow in the stream; with no frame it leaves its loop *)
+| KRecover                 (* recover() and the trimming done by nextCall: vm.panic is nil again *)
+| KFinish                  (* the code has ended: run returns, runRecoverable returns nil, runFunc leaves its loop *)
 | KAbort (o : N).          (* Stop, Fatal or an internal error: runFunc returns it at once *)
 
-Inductive result := RCtxErr | ROwn (o : N).
+(* what runFunc returns: the error of the context, nil, vm.panic, or the value of a Stop/Fatal *)
+Inductive result := RCtxErr | RNil | RPanicErr | ROwn (o : N).
 
 Record oracle := mkoracle {
   o_prog : nat -> ikind;          (* the instruction at each pc (every program, also infinite ones) *)
@@ -72,7 +81,8 @@ Record oracle := mkoracle {
 Record cstate := mkcstate {
   cpc : nat;
   clock : nat;
-  cdone : bool                    (* env.done *)
+  cdone : bool;                   (* env.done *)
+  cpending : bool                 (* vm.panic != nil: the code that runs is a deferred call started by a panic that is not recovered (yet) *)
 }.
 
 Definition cancelled (orc : oracle) (s : cstate) : bool :=
@@ -80,7 +90,21 @@ Definition cancelled (orc : oracle) (s : cstate) : bool :=
 
 Inductive cres := CNext (s : cstate) | CRet (r : result).
 
-Definition tick (s : cstate) (pc : nat) (done : bool) : cstate := mkcstate pc (S (clock s)) done.
+Definition tick (s : cstate) (pc : nat) (done : bool) : cstate := mkcstate pc (S (clock s)) done (cpending s).
+Definition tick_pending (s : cstate) (pc : nat) (done pending : bool) : cstate := mkcstate pc (S (clock s)) done pending.
+
+(* the statements of runFunc after its loop, as generated from run.go
+   (Facts_vm_sites.runfunc_tail): stop != nil is has_ctx *)
+Definition tail_result (code : N) : result :=
+  match code with
+  | 0%N => RNil
+  | 1%N => RCtxErr
+  | 2%N => RPanicErr
+  | n => ROwn n
+  end.
+
+Definition leave (has_ctx done pending : bool) : cres :=
+  CRet (tail_result (runfunc_tail has_ctx done pending)).
 
 (* the instruction part of an iteration *)
 Definition cbody (has_ctx : bool) (orc : oracle) (s : cstate) : cres :=
@@ -88,26 +112,31 @@ Definition cbody (has_ctx : bool) (orc : oracle) (s : cstate) : cres :=
   let done := cdone s || (has_ctx && cancelled orc s && o_watcher orc (clock s)) in
   match o_prog orc (cpc s) with
   | KCompute => CNext (tick s (S (cpc s)) done)
-  | KFinish o => if has_ctx && done then CRet RCtxErr else CRet (ROwn o)
+  | KFinish => leave has_ctx done (cpending s)
   | KAbort o => CRet (ROwn o)
+  | KPanic frames =>
+      if frames then CNext (tick_pending s (S (cpc s)) done true)
+      else leave has_ctx done true
+  | KRecover => CNext (tick_pending s (S (cpc s)) done false)
   | KBlock b =>
       let ready := o_ready orc (clock s) in
       if has_ctx && op_guarded b then
-        (* reflect.Select over the program's cases and the done case *)
+        (* reflect.Select over the program's cases and the done case; when the
+           done case is chosen: vm.stop() sets env.done, run returns, runFunc leaves its loop *)
         match ready, cancelled orc s with
         | false, false => CNext (tick s (cpc s) done)               (* still blocked *)
         | true, false => CNext (tick s (S (cpc s)) done)
-        | false, true => CRet RCtxErr                                (* vm.stop(): env.done = 1, runFunc returns ctx.Err() *)
-        | true, true => if o_pick_done orc (clock s) then CRet RCtxErr else CNext (tick s (S (cpc s)) done)
+        | false, true => leave has_ctx true (cpending s)
+        | true, true => if o_pick_done orc (clock s) then leave has_ctx true (cpending s) else CNext (tick s (S (cpc s)) done)
         end
       else
         (* a plain Recv / Send / Select without the done case *)
         if ready then CNext (tick s (S (cpc s)) done) else CNext (tick s (cpc s) done)
   end.
 
-(* one iteration of the loop: the head test, then the instruction *)
+(* one iteration of the loop: the head test (vm.stop(), then runFunc leaves its loop), then the instruction *)
 Definition cstep (has_ctx : bool) (orc : oracle) (s : cstate) : cres :=
-  if has_ctx && cdone s then CRet RCtxErr else cbody has_ctx orc s.
+  if has_ctx && cdone s then leave has_ctx true (cpending s) else cbody has_ctx orc s.
 
 Fixpoint crun (has_ctx : bool) (orc : oracle) (n : nat) (s : cstate) : option result :=
   match n with
@@ -133,24 +162,38 @@ Definition crun_mid (has_ctx : bool) (orc : oracle) (n : nat) (s : cstate) : opt
 (* ---- the deterministic scenarios of the correspondence ----
    program: one blocking instruction b, then the end of the code;
    busy = true: an endless loop of non-blocking instructions instead.
+   phase 0: that is the main code; phase 1: it is the body of a deferred
+   function started by a panic that is not recovered (the stream begins with
+   the panicking instruction).
    mode 0: no context; 1: a context that is never cancelled; 2: cancelled at tick 3.
-   answer 0: still running after the fuel (blocked or looping), 1: own outcome, 2: context error *)
-Definition scenario_oracle (b : bop) (busy ready : bool) (mode : N) : oracle :=
-  mkoracle (fun pc => if busy then KCompute else match pc with O => KBlock b | _ => KFinish 0 end)
+   answer 0: still running after the fuel (blocked or looping), 1: nil, 2: context error,
+   3: the PanicError, 4: another value *)
+Definition scenario_prog (b : bop) (busy : bool) (phase : N) (pc : nat) : ikind :=
+  let body (k : nat) := if busy then KCompute else match k with O => KBlock b | _ => KFinish end in
+  if N.eqb phase 0 then body pc
+  else match pc with O => KPanic true | S k => body k end.
+
+Definition scenario_oracle (b : bop) (busy ready : bool) (mode phase : N) : oracle :=
+  mkoracle (scenario_prog b busy phase)
            (fun _ => ready) (fun _ => false) (fun t => Nat.leb 5%nat t)
            (if N.eqb mode 2 then Some 3%nat else None).
 
-Definition scenario (bcode : N) (busy ready : bool) (mode : N) : N :=
+Definition scenario5 (bcode : N) (busy ready : bool) (mode phase : N) : N :=
   let b := if N.eqb bcode 1 then BSend else if N.eqb bcode 2 then BSelect else if N.eqb bcode 3 then BRange else BReceive in
-  match crun (negb (N.eqb mode 0)) (scenario_oracle b busy ready mode) 40%nat (mkcstate 0%nat 0%nat false) with
+  match crun (negb (N.eqb mode 0)) (scenario_oracle b busy ready mode phase) 40%nat (mkcstate 0%nat 0%nat false false) with
   | None => 0%N
-  | Some (ROwn _) => 1%N
+  | Some RNil => 1%N
   | Some RCtxErr => 2%N
+  | Some RPanicErr => 3%N
+  | Some (ROwn _) => 4%N
   end.
 
-(* for the line protocol: input bytes [bcode; busy; ready; mode], output one byte *)
+Definition scenario (bcode : N) (busy ready : bool) (mode : N) : N := scenario5 bcode busy ready mode 0.
+
+(* for the line protocol: input bytes [bcode; busy; ready; mode] or [bcode; busy; ready; mode; phase], output one byte *)
 Definition cancel_case (s : list N) : option (list N) :=
   match s with
   | [bcode; busy; ready; mode] => Some [scenario bcode (negb (N.eqb busy 0)) (negb (N.eqb ready 0)) mode]
+  | [bcode; busy; ready; mode; phase] => Some [scenario5 bcode (negb (N.eqb busy 0)) (negb (N.eqb ready 0)) mode phase]
   | _ => None
   end.
